@@ -1,15 +1,15 @@
 SPECIFICATION Spec
 CONSTANTS
   Orders <- OrdersAll
-  Dts <- DtsT
-  Targets <- TargT
-  TsTargets <- TargT
+  Dts <- DtsP
+  Targets <- TargQ
+  TsTargets <- TargV
   MaxTs = 1
   MaxSweeps = 0
-  MaxQueued = 1
+  MaxQueued = 3
   PublicQueue = TRUE
-  DtChangeQueued = FALSE
-  FixQ = FALSE
+  DtChangeQueued = TRUE
+  FixQ = TRUE
   LeftRenormSite = 0
   FlipWrap = TRUE
   Ls <- LsAll
